@@ -39,8 +39,9 @@ def main():
         i = sys.argv.index("--check") + 1
         while i < len(sys.argv) and not sys.argv[i].startswith("--"):
             extra.append(sys.argv[i]); i += 1
-    wt = f"/tmp/seed_{prop}"
-    src = f"/tmp/seedout_{prop}/{k}"
+    rnd = os.environ.get("SEED_ROUND", "")  # round 2 worktrees are checkouts of /repo HEAD (after the fix: commits)
+    wt = f"/tmp/seed{rnd}_{prop}"
+    src = f"/tmp/seedout{rnd}_{prop}/{k}"
     patch = os.path.join(src, "patch.diff")
     demo = os.path.join(src, "demo.py")
     meta = {"property": prop, "k": k, "ran": []}
